@@ -7,19 +7,20 @@ from rules.c13 import chase_mentions
 import callgraph
 
 LEVEL_TEXT = (
-    "Static permit accounting: R1 in the accept loop every path from an accepted socket to tokio::spawn takes exactly one "
-    "permit (Semaphore::acquire whose permit is consumed by SemaphorePermit::forget) before the spawn, the Client is "
-    "built with a clone of the very semaphore that is acquired, and the spawned task owns that Client and runs "
-    "Client::handle; R2 exactly one permit is returned per Client, on every way the task can end: <Client as Drop>::drop "
-    "calls add_permits(1) on the client's semaphore exactly once, nobody else calls add_permits/forget/close, and Client is "
-    "neither Clone/Copy nor leaked (mem::forget, ManuallyDrop, Box::leak, Rc/Arc) — so Rust's ownership gives 'dropped "
-    "exactly once' for return, error, timeout, panic and task abort alike; R3 no normal exit lies between the construction "
-    "of a Client and the forget of its permit (otherwise Drop would return a permit that was never taken); R4 the "
-    "semaphore is sized by the configured connection limit and is constructed once per server process (not per listener "
-    "thread, not in a loop); R5 every socket read reachable from Client::handle (walked over the call graph, with the "
-    "futures handed to tokio::time::timeout marked) is bounded by a timeout derived from rx_timeout_secs — a silent peer "
-    "cannot keep its task, and with it its slot, forever. Not decided: that waiting connections are picked up 'as soon as' a slot frees (tokio "
-    "fairness), the kernel backlog."
+    'Static permit accounting: R1 the accept loop is evaluated by the abstract interpreter on MemcacheTcpServer::run '
+    'with every in-crate helper (sync or async) inlined, one round per path: a round that spawns a client task has '
+    "performed exactly one Semaphore::acquire on the server's semaphore whose permit is consumed by forget, both "
+    'before the spawn; the Client is built with that very semaphore; the spawned task owns that Client and runs '
+    'Client::handle on it; R2 exactly one permit is returned per Client, on every way the task can end: the '
+    'destructor (Drop) of the Client — or of a value the Client owns — calls add_permits(1) on the semaphore exactly '
+    'once, nobody else calls add_permits/forget/close, and Client is neither Clone/Copy nor leaked (mem::forget, '
+    "ManuallyDrop, Box::leak, Rc/Arc) — so Rust's ownership gives 'dropped exactly once' for return, error, timeout, "
+    'panic and task abort alike; R3 no round ends (return, `?`, next round) between the construction of a Client and '
+    'the forget of its permit; R4 the semaphore is sized by the configured connection limit and is constructed once '
+    'per server process (not per listener thread, not in a loop); R5 every socket read reachable from Client::handle '
+    '(walked over the call graph, with the futures handed to tokio::time::timeout marked) is bounded by a timeout '
+    'derived from a configured timeout field — a silent peer cannot keep its task, and with it its slot, forever. Not '
+    "decided: that waiting connections are picked up 'as soon as' a slot frees (tokio fairness), the kernel backlog."
 )
 ASSUMPTIONS = [
     "tokio::sync::Semaphore contract: acquire().await yields one permit; forget() keeps it taken; add_permits(n) returns n",
